@@ -22,6 +22,9 @@ def projects(tier, seed):
     ps.append(fault.small_project(rnd, nfiles=3, stmts=(1, 3), structured=True, lock=core.lock_text(100), label="s1"))
     ps.append(fault.small_project(rnd, nfiles=2, stmts=(2, 6), use_cache=False, label="s2"))
     ps.append(fault.small_project(rnd, nfiles=1, stmts=(1, 1), big=70000, label="b64k"))
+    hl = fault.small_project(rnd, nfiles=2, stmts=(2, 4), label="hardlink")
+    hl.hardlinks = {"src/f0.rs": "shared/f0_other_name.rs"}
+    ps.append(hl)
     if tier == "thorough":
         ps.append(fault.small_project(rnd, nfiles=1, stmts=(1, 2), big=1200000, label="b1m"))
         for j in range(24):
